@@ -250,3 +250,135 @@ pub fn run(max_n: usize) -> (ChainStats, Vec<Violation>) {
     reset();
     (st, vs)
 }
+
+// ------------------------------------------------------------------------------------------------
+// C04 (recursive release by reference counting): chains of solely-owned objects, enumerated over
+// (length n, link kind, buffering pattern, earlier collection or not). Dropping the head must finalize, drop and
+// release the whole chain before that drop returns - however long the chain, whichever members are buffered,
+// whatever an earlier collection saw - without any collect_cycles() call.
+// ------------------------------------------------------------------------------------------------
+
+thread_local! {
+    static RC_LOG: RefCell<Vec<(u32, u32, bool)>> = const { RefCell::new(Vec::new()) }; // (finalize calls, drop calls, finalized before drop)
+}
+
+struct RcItem {
+    id: usize,
+    next: RefCell<Option<Cc<RcItem>>>,
+    unext: RefCell<Option<Cc<RcItem>>>,
+}
+
+unsafe impl Trace for RcItem {
+    fn trace(&self, ctx: &mut Context<'_>) {
+        self.next.trace(ctx);
+        // `unext` is deliberately not traced (an owner may do that)
+    }
+}
+
+impl Finalize for RcItem {
+    fn finalize(&self) {
+        RC_LOG.with(|l| l.borrow_mut()[self.id].0 += 1);
+    }
+}
+
+impl Drop for RcItem {
+    fn drop(&mut self) {
+        RC_LOG.with(|l| {
+            let mut l = l.borrow_mut();
+            l[self.id].1 += 1;
+            l[self.id].2 = l[self.id].0 > 0;
+        });
+    }
+}
+
+fn rc_case(n: usize, kind: u8, pattern: u8, pre_collect: bool, st: &mut ChainStats, vs: &mut Vec<Violation>) {
+    reset();
+    st.cases += 1;
+    RC_LOG.with(|l| {
+        let mut l = l.borrow_mut();
+        l.clear();
+        l.resize(n, (0, 0, false));
+    });
+    let label = format!("rc-chain n={} links={} buffered={} earlier-collection={}", n, ["traced", "untraced", "alternating"][kind as usize], ["none", "all", "every other", "last only", "middle only"][pattern as usize], pre_collect);
+    // build tail first so that every node is owned by its predecessor only
+    let mut head: Option<Cc<RcItem>> = None;
+    for id in (0..n).rev() {
+        let it = Cc::new(RcItem { id, next: RefCell::new(None), unext: RefCell::new(None) });
+        let untraced = match kind {
+            0 => false,
+            1 => true,
+            _ => id % 2 == 1,
+        };
+        if untraced {
+            *it.unext.borrow_mut() = head.take();
+        } else {
+            *it.next.borrow_mut() = head.take();
+        }
+        let buffer_it = match pattern {
+            0 => false,
+            1 => true,
+            2 => id % 2 == 0,
+            3 => id == n - 1,
+            _ => id == n / 2,
+        };
+        if buffer_it {
+            drop(it.clone()); // one of two Ccs dropped: the object is now buffered, its count is 1 again
+        }
+        head = Some(it);
+    }
+    if pre_collect {
+        collect_cycles();
+        st.collects += 1;
+        let (f, d) = RC_LOG.with(|l| l.borrow().iter().fold((0, 0), |a, x| (a.0 + x.0, a.1 + x.1)));
+        if f != 0 || d != 0 {
+            vs.push(Violation { prop: "C01", pred: "P-live", msg: format!("{}: a collection finalized/dropped members of a chain whose head is held", label) });
+            std::mem::forget(head);
+            return;
+        }
+    }
+    drop(head); // the last Cc of the head, outside any collection
+    let log = RC_LOG.with(|l| l.borrow().clone());
+    let fin_on = cfg!(feature = "fin");
+    for (i, (f, d, before)) in log.iter().enumerate() {
+        if *d != 1 {
+            vs.push(Violation { prop: "C04", pred: "P-count", msg: format!("{}: item {} dropped {} time(s) by the time the drop of the head returned", label, i, d) });
+            return;
+        }
+        if fin_on && (*f != 1 || !*before) {
+            vs.push(Violation { prop: "C04", pred: "P-count", msg: format!("{}: item {} finalized {} time(s) (before its drop: {})", label, i, f, before) });
+            return;
+        }
+    }
+    if state::allocated_bytes().unwrap_or(1) != 0 {
+        vs.push(Violation { prop: "C04", pred: "P-count", msg: format!("{}: allocated_bytes() = {:?} right after the drop of the head returned", label, state::allocated_bytes()) });
+        return;
+    }
+    if state::buffered_objects_count().unwrap_or(1) != 0 {
+        vs.push(Violation { prop: "C11", pred: "P-intro", msg: format!("{}: buffered_objects_count() = {:?} although every object is gone", label, state::buffered_objects_count()) });
+        return;
+    }
+    st.distinct.insert((kind as u32 * 10 + pattern as u32, pre_collect as u64));
+    if st.samples.len() < 6 && st.cases % 997 == 1 {
+        st.samples.push(label);
+    }
+}
+
+pub fn run_rc(max_n: usize, extra: &[usize]) -> (ChainStats, Vec<Violation>) {
+    let mut st = ChainStats { cases: 0, collects: 0, max_episodes: 0, callbacks: 0, samples: vec![], distinct: Default::default() };
+    let mut vs = Vec::new();
+    let sizes: Vec<usize> = (1..=max_n).chain(extra.iter().copied()).collect();
+    for n in sizes {
+        for kind in 0..3u8 {
+            for pattern in 0..5u8 {
+                for pre in [false, true] {
+                    rc_case(n, kind, pattern, pre, &mut st, &mut vs);
+                    if !vs.is_empty() {
+                        return (st, vs);
+                    }
+                }
+            }
+        }
+    }
+    reset();
+    (st, vs)
+}
